@@ -92,7 +92,7 @@ pub fn check_json(ctx: &Ctx, frame: &[u8]) -> Check {
 }
 
 pub fn run(ctx: &Ctx) {
-    ctx.set_rule("the finite shape space (DF 0..31 x CA/CF x TC 0..31 x subtype x ADS-B version x Comm-B register template x extreme-fill mode; list in vcheck/src/frames.rs::base_shapes) is enumerated completely with K random fills per shape, plus everything the C01 generators accept. Oracle: serde_json::to_string is Ok, one line, parses as one object with a duplicate-rejecting reader, Debug shows no NaN/inf, df/icao24 equal the DF bits and the address carried (AA field or independent CRC overlay), TimedMessage keeps the frame as hex and re-decoding that hex gives the same fields; batches of frames also go through the real decode1090 binary (which unwraps to_string) in argument and file mode: no abort, the library's JSON line per frame / a well-formed record that keeps timestamp, frame and every decoded field; related frames in several orders on one thread serialise identically each time; every base shape and generated batches of accepted frames are served to the real jet1090 binary over TCP (it ignores a failed to_string): each must be printed as exactly one well-formed line that keeps the frame and every decoded field, and the process must survive. Non-trivial = accepted frame (distinct by bytes); distinct accepted shapes are reported separately.");
+    ctx.set_rule("the finite shape space (DF 0..31 x CA/CF x TC 0..31 x subtype x ADS-B version x Comm-B register template x extreme-fill mode; list in vcheck/src/frames.rs::base_shapes) is enumerated completely with K random fills per shape, plus everything the C01 generators accept. Oracle: serde_json::to_string is Ok, one line, parses as one object with a duplicate-rejecting reader, Debug shows no NaN/inf, df/icao24 equal the DF bits and the address carried (AA field or independent CRC overlay), TimedMessage keeps the frame as hex and re-decoding that hex gives the same fields; batches of frames also go through the real decode1090 binary (which unwraps to_string) in argument and file mode: no abort, the library's JSON line per frame / a well-formed record that keeps timestamp, frame and every decoded field; related frames in several orders on one thread serialise identically each time; every base shape and generated batches of accepted frames are served to the real jet1090 binary over TCP (it ignores a failed to_string): each must be printed (stdout and --output file, with and without a df filter that rejects part of the batch) as exactly one well-formed line that keeps the frame and every decoded field, rejected records leave no trace, and the process must survive. Non-trivial = accepted frame (distinct by bytes); distinct accepted shapes are reported separately.");
     ctx.assume("address of AP formats = remainder of the frame modulo the generator polynomial (independent CRC)");
     // 1. exhaustive shape space x K fills
     let shapes = base_shapes();
@@ -194,7 +194,8 @@ pub fn run(ctx: &Ctx) {
             ctx.class_n("base shapes through the real jet1090 binary", all.len() as u64);
             let n = ctx.tier.pick(32u32, 480u32);
             (0..16u32).into_par_iter().for_each(|s| {
-                vcore::ev::run_prop_shrink(ctx, &format!("e2e-{s}"), n / 16, 12, proptest::collection::vec(vcore::gen::frame().prop_map(|(_, f)| f), 1..80), |frames| check_e2e(ctx, &env, frames, &format!("c07-{s}")));
+                let filt = prop_oneof![1 => Just(None), 2 => proptest::collection::vec(proptest::sample::select(vec![0u16, 4, 5, 11, 16, 17, 18, 20, 21]), 1..4).prop_map(Some)];
+                vcore::ev::run_prop_shrink(ctx, &format!("e2e-{s}"), n / 16, 12, (proptest::collection::vec(vcore::gen::frame().prop_map(|(_, f)| f), 1..80), filt), |(frames, filt)| check_e2e_filtered(ctx, &env, frames, filt.clone(), &format!("c07-{s}")));
             });
         }
         None => {
@@ -312,6 +313,12 @@ pub fn check_cli(ctx: &Ctx, bin: &str, frames: &[Vec<u8>]) -> Check {
 /// well-formed line that keeps the frame and contains every field of the library's decoding (an ambiguous BDS 5,0 /
 /// 6,0 pair may be withdrawn, a position may be added).
 pub fn check_e2e(ctx: &Ctx, env: &crate::e2e::Env, frames: &[Vec<u8>], tag: &str) -> Check {
+    check_e2e_filtered(ctx, env, frames, None, tag)
+}
+
+/// as `check_e2e`, with a downlink-format filter: what the filter rejects is not printed (and leaves no trace in the
+/// lines of the records that are), everything else exactly as without a filter
+pub fn check_e2e_filtered(ctx: &Ctx, env: &crate::e2e::Env, frames: &[Vec<u8>], df_filter: Option<Vec<u16>>, tag: &str) -> Check {
     ctx.eval();
     let mut seen = std::collections::BTreeSet::new();
     let accepted: Vec<Vec<u8>> = frames.iter().filter(|f| Message::try_from(f.as_slice()).is_ok() && seen.insert((*f).clone())).cloned().collect();
@@ -319,6 +326,8 @@ pub fn check_e2e(ctx: &Ctx, env: &crate::e2e::Env, frames: &[Vec<u8>], tag: &str
         references: vec![Some((48.0, 7.0))],
         sends: accepted.iter().enumerate().map(|(i, f)| crate::e2e::Send { source: 0, frame: f.clone(), pause_ms: (i % 4 == 3) as u32, cut: 0 }).collect(),
         dedup_ms: 40,
+        df_filter,
+        with_file: true,
         ..Default::default()
     };
     let rep = json!({"kind": "e2e", "scenario": crate::e2e::scenario_json(&sc)});
@@ -336,7 +345,7 @@ pub fn replay_e2e(ctx: &Ctx, env: &crate::e2e::Env, sc: &crate::e2e::Scenario, r
         Ok(out) => out,
     };
     let mut lines: std::collections::BTreeMap<String, Vec<J>> = Default::default();
-    for l in &out.lines {
+    for l in out.lines.iter().chain(out.file_lines.iter().flatten()) {
         let j = jsonck::parse(l).map_err(|e| fail("malformed-line", format!("{e}: {l}")))?;
         let f = j.get("frame").and_then(|x| x.as_str()).unwrap_or("").to_string();
         lines.entry(f).or_default().push(j);
@@ -344,12 +353,19 @@ pub fn replay_e2e(ctx: &Ctx, env: &crate::e2e::Env, sc: &crate::e2e::Scenario, r
     for s in &sc.sends {
         let Ok(m) = Message::try_from(s.frame.as_slice()) else { continue };
         let h = hex::encode(&s.frame);
+        let passes = sc.df_filter.as_ref().map(|l| l.is_empty() || l.contains(&((s.frame[0] >> 3) as u16))).unwrap_or(true);
+        if !passes {
+            if lines.contains_key(&h) {
+                return Err(fail("filtered-record-printed", format!("frame {h} is rejected by the df filter {:?} but was printed", sc.df_filter)));
+            }
+            continue;
+        }
         let Some(ls) = lines.get(&h) else {
             let tag = shape_tag(&s.frame);
             return Err(fail(&format!("record-not-printed:{tag}"), format!("jet1090 printed nothing for the accepted frame {h} ({})", serde_json::to_string(&m).unwrap_or_else(|e| format!("the library cannot serialise it either: {e}")))));
         };
-        if ls.len() != 1 {
-            return Err(fail("record-printed-more-than-once", format!("{} lines for frame {h}", ls.len())));
+        if ls.len() > 2 || (ls.len() == 2 && ls[0] != ls[1]) {
+            return Err(fail("record-printed-more-than-once", format!("{} different lines for frame {h} on stdout and in the --output file", ls.len())));
         }
         let want = jsonck::parse(&serde_json::to_string(&m).map_err(|e| fail("library-cannot-serialise", e.to_string()))?).map_err(|e| fail("library-malformed", e))?;
         if let (J::Obj(have), J::Obj(want)) = (&ls[0], &want) {
